@@ -18,6 +18,7 @@ EXPLANATION = (
     "the cursor alone, as a plain editor does."
     ' R1 also checks byte-index sinks (String::insert/remove/...: the position must be a boundary-safe byte offset). R4 also: update_next returns only with the draft focused (copy and focus reset on every path). R8: clearing the edit buffer is followed by cursor := 0 on every path to the return. R2 also: the count a step is guarded by is that of the line on show - get_current(), or the buffer once update_next dominates -, not of the hidden draft. R9: no function of the editor narrows a `char` to u8/u16 (`ch as u8`) outside an is_ascii test of that character. R10: no blank line is submitted - from the blank side of the draft test no `complete` answer is reachable, and the history list is only pushed to by TerminalHistory::push (from read_line, behind the raw read, with the buffer) and by the history-file loader behind a `trim().is_empty()` test. The scope of R3 is the whole terminal reader (read, read_line, the raw read, the prompt, the history push, the splitter); lace::output and lace::term are the environment side (not entered), a failed write to the terminal is assumption A7, and the non-blank assertion of read_line is conditional on R10. R6 also: the keys that only move (Left, Right, Ctrl+Left/Right, Up, Down) never call update_next. R10 also: the condition in front of the history push, read for an empty list, comes out on the pushing side (the first line is remembered).'
     " R10 also: the routine that is handed the submitted line puts it into the in-memory list on every way to its return."
+    " R2 also: a removal that follows a step to the left is reached only when the old cursor was at least 1 (a test cursor > 0, or a checked step)."
 )
 
 NOT_DECIDED = "equality with a reference editor for all key sequences; that helper results are <= the character count (value-level)"
